@@ -116,7 +116,7 @@ C12Parts(c, run) ==
         fits == \A i \in 1..Len(exp) : SumW(exp[i]) <= avail
         outItems == [i \in 1..Len(run.res.lines) |-> StripPrefix(NoFrags(run.res.lines[i]), pw)]
         out == [i \in 1..Len(outItems) |-> Plain(outItems[i])]
-        rich == run.route \in {"lines", "staged_lines"} /\ run.cfg.deco = "rich"
+        rich == run.route \in {"lines", "staged_lines", "restaged_lines"} /\ run.cfg.deco = "rich"
         al == Align([i \in 1..Len(src) |-> NonSpaceCodes(src[i])], [i \in 1..Len(out) |-> NonSpaceCodes(out[i])])
         NonSp(items) == SelectSeq(items, LAMBDA x : ~IsWs(x))
     IN [ \* text: verbatim when it fits; otherwise conservation per source line and the width bound
@@ -262,7 +262,7 @@ MarkersOf(res) ==
                          ELSE IF IsLetterCode(x[1]) THEN [a EXCEPT !.n = @ + 1] ELSE a,
            [n |-> 0, out |-> <<>>], Concat(res.lines)).out
 P_C14(c) ==
-  (c.runs[1].route \notin {"lines", "staged_lines"}) \/
+  (c.runs[1].route \notin {"lines", "staged_lines", "restaged_lines"}) \/
   LET a == c.runs[1]
       dom == Dom1(c, a)
       ids == IdInfoSeq(dom, 0).out
@@ -328,7 +328,7 @@ AncVecsSeq(ns, anc) == UNION {AncVecs(ns[i], anc) : i \in 1..Len(ns)}
 AncVecs(n, anc) == IF n.k # "e" \/ Ignored(n) THEN {anc}
                    ELSE IF IsHtml(n, "img") THEN {anc, Append(anc, <<"I", IF HasAttr(n, "src") THEN n.a.src ELSE "">>)}
                    ELSE {anc, anc \o AnnOf(n)} \cup AncVecsSeq(n.c, anc \o AnnOf(n))
-IsRichLines(run) == run.route \in {"lines", "staged_lines"} /\ run.cfg.deco = "rich"
+IsRichLines(run) == run.route \in {"lines", "staged_lines", "restaged_lines"} /\ run.cfg.deco = "rich"
 \* the continuation flag of preformatted text: a letter that is the very first character of a source
 \* line of a <pre> (directly after the start tag, or directly after a newline, possibly inside inline
 \* elements that open there) starts a piece and so carries Preformat(false).  One boolean per letter
@@ -369,6 +369,15 @@ P_C09_nesting(c) ==
              LET st == LineStartSeq(dom, FALSE, FALSE).out
                  items == SelectSeq(Concat(a.res.lines), LAMBDA x : ~IsFrag(x) /\ IsLetterCode(x[1])) IN
              Len(st) = Len(items) => \A i \in 1..Len(st) : st[i] => PVal(items[i][3]) = 0
+       \* the blanks that pad_block_width appends after the text of a line belong to the block, not to an inline
+       \* element that happens to be open where the line was wrapped (lines of <pre> keep their own trailing blanks)
+       /\ (CfgOf(a.cfg).pad /\ ~HasTable(dom)) =>
+             \A i \in 1..Len(a.res.lines) :
+                LET ln == NoFrags(a.res.lines[i])
+                    nonsp == {j \in 1..Len(ln) : ln[j][1] # 32}
+                    last == IF nonsp = {} THEN 0 ELSE CHOOSE m \in nonsp : \A q \in nonsp : q <= m IN
+                (\A j \in 1..Len(ln) : PVal(ln[j][3]) = -1) =>
+                   \A j \in (last + 1)..Len(ln) : \A t \in 1..Len(ln[j][3]) : ln[j][3][t][1] \notin {"E", "S", "K", "C", "L", "I"}
   /\ Len(c.runs) >= 2 =>
        LET b == c.runs[2] IN
        /\ a.res.k = b.res.k
